@@ -151,6 +151,9 @@ def main():
   # round to infinity)
   huge = [k for k in fams.get("weights_1op", []) if dumps[k]["scn"]["mode"][0][0]["m"] == "F16"]
   jobs = [(k, "grid") for k in chosen] + [(k, "tiny") for k in common.sample_keep(tiny, 40 if args.tier == "quick" else 10**6, args.seed)]
+  # per-channel slices of equal width at different offsets (equal scales, different zero points under asymmetric weights)
+  eqr = [k for k in chosen if any(m.get("w", "-") in ("w8ca", "w4ca", "w8c", "w4c") for ms in dumps[k]["scn"]["mode"] for m in ms)]
+  jobs += [(k, "eqrange") for k in common.sample_keep(eqr, 120 if args.tier == "quick" else 6000, args.seed)]
   if prop == "C05":
     jobs += [(k, "huge") for k in common.sample_keep(huge, 30 if args.tier == "quick" else 10**6, args.seed)]
   if prop == "C04":
@@ -164,7 +167,7 @@ def main():
     scn = d["scn"]
     rng_k = np.random.default_rng(args.seed + len(runs))
     try:
-      model, info = synth.build(scn, args.seed, const_fn={"grid": numeric.grid_const, "tiny": numeric.tiny_const, "huge": numeric.huge_const, "small16": numeric.grid_const}[variant](rng_k))
+      model, info = synth.build(scn, args.seed, const_fn={"grid": numeric.grid_const, "tiny": numeric.tiny_const, "huge": numeric.huge_const, "small16": numeric.grid_const, "eqrange": numeric.eqrange_const}[variant](rng_k))
     except synth.Unrealisable:
       continue
     if not policy_ok(scn, info["codes"]):
